@@ -16,12 +16,21 @@ import (
 
 // NewRun draws a configuration and opens a fresh DB.
 func NewRun(R *vcommon.Report, prop string, k Knobs, caseIdx int, rng *rand.Rand) *Run {
+	return NewRunFS(R, prop, k, caseIdx, rng, nil, nil)
+}
+
+// NewRunFS is NewRun on a caller-supplied file system; setup may adjust the
+// run (configuration, hook, options) before the DB is opened.
+func NewRunFS(R *vcommon.Report, prop string, k Knobs, caseIdx int, rng *rand.Rand, fs vfs.FS, setup func(r *Run)) *Run {
 	r := &Run{R: R, Prop: prop, K: k, Case: caseIdx, rng: rng, Ev: &Events{}, M: model.NewState(),
 		w1set: map[string]int{}, w1mg: map[string]bool{}, shapes: map[string]struct{}{}, Stats: map[string]int64{}}
 	r.Cfg = drawConfig(rng, k)
 	if k.Ratchet {
 		// leave room for upgrades
 		r.Cfg.FMV = int(pebble.FormatMinSupported) + rng.IntN(int(pebble.FormatNewest-pebble.FormatMinSupported)+1)/2
+		if k.RatchetHeavy {
+			r.Cfg.FMV = int(pebble.FormatMinSupported) + rng.IntN(int(pebble.FormatNewest-pebble.FormatMinSupported))
+		}
 	}
 	letters := "abcdefgh"[:r.Cfg.Letters]
 	for _, c := range letters {
@@ -41,11 +50,21 @@ func NewRun(R *vcommon.Report, prop string, k Knobs, caseIdx int, rng *rand.Rand
 		}
 	}
 	sort.Strings(r.prefixes)
-	r.fs = vfs.NewMem()
+	r.fs = fs
+	if r.fs == nil {
+		r.fs = vfs.NewMem()
+	}
+	r.Dir = "db"
+	if setup != nil {
+		setup(r)
+	}
 	r.opts = MakeOptions(r.Cfg, r.fs, r.Ev)
+	if r.OptsHook != nil {
+		r.OptsHook(r.opts)
+	}
 	r.attachFileCache()
 	r.opts.EnsureDefaults()
-	db, err := pebble.Open("db", r.opts)
+	db, err := pebble.Open(r.Dir, r.opts)
 	if err != nil {
 		r.fail("open-error", "Open: %v", err)
 		return r
@@ -105,7 +124,9 @@ func (r *Run) finish() {
 	if r.nontrivial {
 		r.R.Count("nontrivial_histories", 1)
 	}
-	r.closeAll()
+	if !r.NoFinalClose {
+		r.closeAll()
+	}
 }
 
 // attachFileCache gives the DB a tiny file cache when the configuration asks
@@ -118,6 +139,9 @@ func (r *Run) attachFileCache() {
 		r.opts.FileCache = r.fileCache
 	}
 }
+
+// CloseAll closes every object and the DB.
+func (r *Run) CloseAll() { r.closeAll() }
 
 // closeAll closes every object and the DB; Close errors are violations (C47).
 func (r *Run) closeAll() {
@@ -239,7 +263,15 @@ func (r *Run) oneStep() {
 		}
 	}
 	if r.K.Ratchet {
-		add(2, r.stepRatchet)
+		if r.K.RatchetHeavy {
+			add(8, r.stepRatchet)
+		} else {
+			add(2, r.stepRatchet)
+		}
+	}
+	for _, e := range r.Extra {
+		e := e
+		add(e.Weight, func() { e.F(r) })
 	}
 	tot := 0
 	for _, c := range cs {
@@ -257,11 +289,14 @@ func (r *Run) oneStep() {
 
 func (r *Run) stepWrite() {
 	op := r.genOp(true)
-	r.log("db.%s", op)
-	if err := ApplyOp(r.db, op, r.writeOpts()); err != nil {
+	wo := r.writeOpts()
+	r.log("db.%s sync=%v", op, wo.Sync)
+	r.issue("db."+op.String(), r.syncDurable(wo), batchApply([]model.Op{op}))
+	if err := ApplyOp(r.db, op, wo); err != nil {
 		r.fail("write-error", "%s: %v", op, err)
 		return
 	}
+	r.ack()
 	r.commitUnit([]model.Op{op}, false)
 }
 
@@ -287,15 +322,16 @@ func (r *Run) stepImmediateBatch() {
 		ops = append(ops, op)
 	}
 	how := r.rng.IntN(3)
-	r.log("batch{%s} commit how=%d indexed=%v", opsStr(ops), how, indexed)
+	wo := r.writeOpts()
+	r.log("batch{%s} commit how=%d indexed=%v sync=%v", opsStr(ops), how, indexed, wo.Sync)
+	r.issue("batch{"+opsStr(ops)+"}", r.syncDurable(wo), batchApply(ops))
 	var err error
 	switch how {
 	case 0:
-		err = b.Commit(r.writeOpts())
+		err = b.Commit(wo)
 	case 1:
-		err = r.db.Apply(b, r.writeOpts())
+		err = r.db.Apply(b, wo)
 	default:
-		wo := r.writeOpts()
 		if wo.Sync {
 			err = r.db.ApplyNoSyncWait(b, wo)
 			if err == nil {
@@ -309,6 +345,7 @@ func (r *Run) stepImmediateBatch() {
 		r.fail("commit-error", "commit: %v", err)
 		return
 	}
+	r.ack()
 	nc := 0
 	for _, o := range ops {
 		if o.Kind != model.OpLogData { // LogData is not counted
@@ -427,11 +464,15 @@ func (r *Run) stepBatch() {
 		r.log("iter on batch%d %v", bo.id, mo)
 	case x < 18: // commit
 		r.closeBatchIters(bo) // iterators over a batch must be closed before it is committed
-		r.log("batch%d{%s} commit", bo.id, opsStr(bo.ops))
-		if err := bo.b.Commit(r.writeOpts()); err != nil {
+		wo := r.writeOpts()
+		r.log("batch%d{%s} commit sync=%v", bo.id, opsStr(bo.ops), wo.Sync)
+		// committing an empty batch is a no-op (nothing is written or synced)
+		r.issue(fmt.Sprintf("batch%d{%s}", bo.id, opsStr(bo.ops)), r.syncDurable(wo) && len(bo.ops) > 0, batchApply(bo.ops))
+		if err := bo.b.Commit(wo); err != nil {
 			r.fail("commit-error", "commit: %v", err)
 			return
 		}
+		r.ack()
 		r.commitUnit(bo.ops, false)
 		bo.b.Close()
 		r.bats = append(r.bats[:i], r.bats[i+1:]...)
@@ -904,6 +945,9 @@ func (r *Run) stepMaint() {
 	case x < 4:
 		r.log("Flush")
 		r.bracket("flush", func() error { return r.db.Flush() })
+		if !r.failed {
+			r.durable("Flush")
+		}
 	case x < 5:
 		r.log("AsyncFlush")
 		r.bracket("async-flush", func() error {
@@ -952,11 +996,13 @@ func (r *Run) stepReopen() {
 			r.fail("maintenance-error", "flush: %v", err)
 			return
 		}
+		r.durable("Flush")
 	}
 	if err := r.db.Close(); err != nil {
 		r.fail("close-error", "DB.Close: %v", err)
 		return
 	}
+	r.durable("Close")
 	// DisableWAL histories lose unflushed writes by design; the harness
 	// flushes before closing in that configuration (done below via model
 	// consistency: we flush first).
@@ -964,9 +1010,12 @@ func (r *Run) stepReopen() {
 	fmv := r.Cfg.FMV
 	r.opts = MakeOptions(r.Cfg, r.fs, r.Ev)
 	r.opts.FormatMajorVersion = pebble.FormatMajorVersion(fmv)
+	if r.OptsHook != nil {
+		r.OptsHook(r.opts)
+	}
 	r.attachFileCache()
 	r.opts.EnsureDefaults()
-	db, err := pebble.Open("db", r.opts)
+	db, err := pebble.Open(r.Dir, r.opts)
 	if err != nil {
 		r.fail("reopen-error", "Open: %v", err)
 		return
@@ -986,9 +1035,15 @@ func (r *Run) stepRatchet() {
 		target = cur + pebble.FormatMajorVersion(1+r.rng.IntN(int(pebble.FormatNewest-cur)))
 	}
 	r.log("Ratchet %d -> %d", cur, target)
+	if rh, ok := r.Hook.(RatchetHook); ok {
+		rh.RatchetIssue(int(cur), int(target))
+	}
 	r.bracket("ratchet", func() error { return r.db.RatchetFormatMajorVersion(target) })
 	if r.failed {
 		return
+	}
+	if rh, ok := r.Hook.(RatchetHook); ok {
+		rh.RatchetAck(int(r.db.FormatMajorVersion()))
 	}
 	if got := r.db.FormatMajorVersion(); got < target {
 		r.fail("ratchet-not-applied", "after RatchetFormatMajorVersion(%d) the version is %d", target, got)
@@ -1026,6 +1081,15 @@ func (r *Run) stepIngest() {
 	for _, ops := range tables {
 		desc = append(desc, "{"+opsStr(ops)+"}")
 	}
+	tcopy := tables
+	r.issueKind("ingest "+strings.Join(desc, " "), "ingest", !r.Cfg.DisableWAL, func(st *model.State) {
+		if excise {
+			st.Excise(lo, hi)
+		}
+		for _, ops := range tcopy {
+			st.ApplyIngestTable(ops)
+		}
+	})
 	var err error
 	if excise {
 		r.log("IngestAndExcise [%s,%s) %s", lo, hi, strings.Join(desc, " "))
@@ -1038,6 +1102,7 @@ func (r *Run) stepIngest() {
 		r.fail("ingest-error", "ingest: %v", err)
 		return
 	}
+	r.ack()
 	if excise {
 		r.M.Excise(lo, hi)
 		r.w1PoisonRange(lo, hi)
@@ -1100,10 +1165,12 @@ func (r *Run) stepExcise() {
 		}
 	}
 	r.log("Excise [%s,%s)", lo, hi)
+	r.issueKind(fmt.Sprintf("excise [%s,%s)", lo, hi), "excise", !r.Cfg.DisableWAL, func(st *model.State) { st.Excise(lo, hi) })
 	if err := r.db.Excise(context.Background(), pebble.KeyRange{Start: []byte(lo), End: []byte(hi)}); err != nil {
 		r.fail("excise-error", "Excise: %v", err)
 		return
 	}
+	r.ack()
 	r.M.Excise(lo, hi)
 	r.w1PoisonRange(lo, hi)
 	r.noteExcise(lo, hi)
